@@ -397,6 +397,16 @@ func (e *Engine) runDefers(st *State, b *ssa.BasicBlock, idx int) bool {
 	case kClosure:
 		e.callFunc(st, d.fnv.Fn, d.fnv.Binds, d.args, b.Instrs[idx], k)
 	default:
+		if d.fnv.K == kTerm {
+			if cv, ok := e.closureRev[d.fnv.T]; ok {
+				e.callFunc(st, cv.Fn, cv.Binds, d.args, b.Instrs[idx], k)
+				return false
+			}
+			if strings.HasPrefix(d.fnv.T, "(select Box_func") {
+				limitf("deferred call of a local function value whose identity was lost (%s in %s)", d.fnv.T, e.oblPrefix(fr.fn))
+			}
+		}
+		// a function value that comes from outside (context.CancelFunc and the like)
 		e.unmodelled["deferred dynamic call"] = true
 		k(st, nil)
 	}
